@@ -292,7 +292,7 @@ impl ForeignKeyCreateStatement {
     b.fn("table", {"table": "Some(table.sp_table_ref())"})
     b.fn("comment", {"comment": "Some(comment.sp_into())"})
     b.fn("col", {"columns@": "old(self).columns@.push(ColumnDef { table: old(self).table, ..column.sp_column_def() })"},
-         rules=[make_r_sub("R-attr", r"column\.table\.clone_from\(&self\.table\);", "vclone_from(&mut column.table, &self.table);")],
+         rules=[make_r_sub("R-attr", r"\b(\w+)\.table\.clone_from\(&self\.table\);", r"vclone_from(&mut \1.table, &self.table);")],
          comment="columns: appended in declaration order; the definition is the one given (its table back-reference is set)")
     b.fn("check", {"check@": "old(self).check@.push(value)"}, comment="table-level checks: appended in declaration order")
     b.fn("index", {"indexes@": "old(self).indexes@.push(*old(index))"}, comment="table-level indexes: appended in declaration order, exactly the index that was built")
